@@ -28,6 +28,7 @@ def check(repo: Repo, rep, tier):
     persist_remove(repo, rep)
     lookup(repo, rep)
     storage_anchor(repo, rep)
+    files_registered(repo, rep)
 
 
 def content_addr(repo: Repo, rep):
@@ -433,3 +434,45 @@ def storage_anchor(repo: Repo, rep):
             break
     else:
         rep.ok("R-STORAGE-ANCHOR", pc, pc.node, "configured storage-dir used as it is")
+
+
+def files_registered(repo: Repo, rep):
+    rep.rule(
+        "R-FILES-REGISTERED",
+        "snapshot() registers the calling module's file in state().files_with_snapshots on every path that records or re-evaluates the call site (only the "
+        "`module is None` / `__file__ is None` tests may by-pass it): unused_externals() trusts that set - the externals referenced from a file that is not "
+        "registered look unused and `--inline-snapshot=trim` deletes them from the storage",
+    )
+    from ..cfg import cfg_of, reach
+
+    f = repo.func("_inline_snapshot.py::snapshot")
+    cfg = cfg_of(f)
+    adds = [n for n in cfg.live for c in node_calls(n) if isinstance(c.func, ast.Attribute) and c.func.attr == "add" and isinstance(c.func.value, ast.Attribute) and attr_chain(c.func.value) == ["state()", "files_with_snapshots"]]
+    stores = [n for n in cfg.live if n.kind == "stmt" and isinstance(n.ast, ast.Assign) and any(isinstance(t, ast.Subscript) and isinstance(t.value, ast.Attribute) and attr_chain(t.value) == ["state()", "snapshots"] for t in n.ast.targets)]
+    reevals = [n for n in cfg.live for c in node_calls(n) if isinstance(c.func, ast.Attribute) and c.func.attr == "_re_eval"]
+    rep.floor("R-FILES-REGISTERED", "recording / re-evaluation sites in snapshot()", len(stores) + len(reevals), 2)
+    if not adds:
+        rep.violation("R-FILES-REGISTERED", f, f.node, "snapshot() never adds the calling file to state().files_with_snapshots: every external looks unused, `--inline-snapshot=trim` empties the storage", construct="no-registration")
+        return
+    # the only edges that may by-pass the registration: the "no module / no file" answers of tests on the module object
+    allowed = []
+    for c in cfg.conds():
+        if any(isinstance(x, ast.Name) and "module" in x.id for x in ast.walk(c.ast)):
+            for b_, lab in c.succ:
+                if lab in ("T", "F") and not any(a_ in reach(cfg, [b_]) or a_ is b_ for a_ in adds):
+                    allowed.append((c, lab))
+    r = reach(cfg, [cfg.entry], blocked_nodes=adds, blocked_edges=allowed, skip_labels=("exc",))
+    missed = [t for t in stores + reevals if t in r]
+    if missed:
+        from ..cfg import path_to
+
+        rep.violation(
+            "R-FILES-REGISTERED",
+            f,
+            missed[0].ast,
+            f"snapshot() reaches `{short(missed[0].ast, 50)}` on a path that has not registered the calling file in state().files_with_snapshots: externals referenced from that file look unused and are deleted by --inline-snapshot=trim",
+            path_to(cfg, missed[0], blocked_nodes=adds, blocked_edges=allowed) or "",
+            construct="registration-bypassed",
+        )
+    else:
+        rep.ok("R-FILES-REGISTERED", f, adds[0].ast, "the calling file is registered before the call site is recorded")
